@@ -23,7 +23,7 @@ prop("C01", "model_checking",
      "Bounded: subsets of <=2 (quick) / <=3 (thorough) entries plus a large-state family; blake3/XOR fingerprint collisions and values outside the alphabet are not covered.")
 prop("C02", "model_checking",
      "exhaustive enumeration of all operation sequences up to a depth over a small entry alphabet on the real replica, compared step by step with a reference model and with the from-scratch definition",
-     "All sequences (hence all permutations and duplications) of <=3 (quick) / <=4 (thorough) entries through remote insert, local insert and prefix delete on a real replica; return values, full dumps, both index paths and point lookups must equal the reference antichain model and spec(set(sequence)).",
+     "All sequences (hence all permutations and duplications) of <=3 (quick) / <=4 (thorough) entries through remote insert, local insert and prefix delete on a real replica; return values, full dumps, both index paths and point lookups must equal the reference antichain model and spec(set(sequence)); a further family runs all sequences of <=2 writes of an author whose id ends in 0xFF next to raw entries of byte-neighbouring author ids, which must stay untouched.",
      "Bounded depth and alphabet (keys '', a, a\\xff, ab, b, \\xff, \\xff\\xff; 3 timestamps; live/other-hash/tombstone); entries differing only in len are outside the alphabet.")
 prop("C08", "model_checking",
      "differential exhaustive enumeration: every pair of reachable states x parameter setting reconciled on in-memory redb, file-backed redb and an ordered-map reference backend driven by the crate's own algorithm (byte-identical transcripts), plus every range of an identifier lattice against the set-theoretic definitions of the storage primitives",
@@ -34,7 +34,7 @@ prop("C09", "exploration",
      "All distinct session transcripts between small reachable states are encoded with the crate's codec and decoded under every split point, truncation and oversized length prefix, including encoding several frames into one buffer; frame, entry, message, heads, ticket, capability, filter and policy decoders are fed every short byte string and every single-byte corruption of valid encodings under catch_unwind, and whatever decodes is pushed through accessors, signature verification and a real replica; signed-entry, author and namespace encodings are pinned.",
      "'Arbitrary bytes' is replaced by its exhaustive small-scope counterpart; quick tier uses a 4-value subset beyond the first 48 bytes of each encoding.")
 prop("C10", "fault_enumeration",
-     "exhaustive enumeration of peer scripts (every sequence of <=3/4 steps over a menu of correct and hostile frames) against the real acceptor and the real initiator over in-memory streams, plus every placement of one local fault (close / disable sync / actor shutdown) before each protocol step of real-vs-real sessions",
+     "exhaustive enumeration of peer scripts (every sequence of <=3 (quick) / <=5 (thorough) steps over a menu of correct and hostile frames) against the real acceptor and the real initiator over in-memory streams, plus every placement of one local fault (close / disable sync / actor shutdown) before each protocol step of real-vs-real sessions",
      "BobState::run and run_alice are driven over duplex streams by a scripted peer that owns a real replica (so 'correct next frame' is always available) and deviates at every step in every way of the menu; a frame relay injects one local fault before every incoming frame on either side. Both ends must return within the deadline without panic, into_outcome() must be callable after every outcome, a declined request leaves the store unchanged, and counters mirror on success.",
      "In-memory duplex transport; deadlines only as hang detectors with a 10x re-run.")
 prop("C11", "model_checking",
@@ -71,23 +71,23 @@ prop("C07", "model_checking",
      "Two documents, one local and one remote key per document.")
 prop("C14", "model_checking",
      "explicit-state breadth-first search over the request alphabet of the store actor for two documents, every history executed sequentially and pipelined on the real SyncHandle/actor thread, every reply compared with a handle-counting reference model, shutdown store compared with the model",
-     "Every (state, request) edge up to depth 4 (quick) / 6 (thorough) over 34 requests; replies, get_state, and the store returned by shutdown must equal the model; pipelined enqueueing must give the same replies as awaiting each one (request order).",
+     "Every (state, request) edge up to depth 4 (quick) / 6 (thorough) over 40 requests (including setting a policy / registering a peer, which fail inside the store on a missing document and must change nothing); replies, get_state, and the store returned by shutdown (documents, entries, policies, peers) must equal the model; the transaction kind of the actor's store is part of the canonical state; pipelined enqueueing must give the same replies as awaiting each one (request order).",
      "Client concurrency is reduced to enqueue orders (single consumer, FIFO queue); drop_replica modelled as the API defines it.")
 prop("C15", "exploration",
      "exhaustive enumeration of all small policies x all small keys against the two-line definition, all small filters through their textual form, and set/get persistence incl. file reopen",
-     "7814 policies (both kinds, <=2 exact/prefix filters over bytes {a,b,':',0xff,0x00}, length <=2) x 156 keys for matches; every filter Display->FromStr; set/get on existing and missing documents in memory and through reopen; should_download of real remote-insert events for all policies with <=1 filter x all keys.",
+     "7814 policies (both kinds, <=2 exact/prefix filters over bytes {a,b,':',0xff,0x00}, length <=2) x 156 keys for matches; every filter Display->FromStr; set/get on existing and missing documents in memory and through reopen; should_download of real remote-insert events for all policies with <=1 filter x all keys; every history of <=3 (thorough 4) policy changes over 6 policies x 2 documents incl. a return to the default, a missing document and reopen.",
      "Alphabet-bounded filters and keys.")
 prop("C16", "model_checking",
      "explicit-state breadth-first search over writes, prefix deletion, peers, policies, open/close, removal and re-creation on a store holding five documents (three with byte-neighbouring ids), from the empty and from a populated state, with a per-document reference and a before/after differential for all other documents",
-     "Every event sequence up to depth 3/4 (quick) and 5 (thorough) over 41 events; after each event every document's entries (both index paths), heads, peers, policy and listing must equal its reference, every other document must be byte-identical to before, removal is refused iff open, and content_hashes() equals the hashes of all held entries.",
+     "Every event sequence up to depth 3/4 (quick) and 5 (thorough) over 41 events; after each event every document's entries (both index paths), heads, peers, policy and listing must equal its reference, every other document must be byte-identical to before, removal is refused iff open, and content_hashes() equals the hashes of all held entries; a real Engine with a GC protect handler is asked for the live set after every step of three scripts (0..140 / 600 writes, prefix deletions, duplicate contents, removals) and must hand the collector exactly the hashes held.",
      "Neighbour-id documents are populated below the validation layer (no key pair exists for chosen ids).")
 prop("C17", "model_checking",
      "exhaustive enumeration of all registration sequences up to a depth plus every (state, event) edge of the complete 3620-state MRU graph on the real store, against a Vec MRU of capacity 5, incl. reopen of a file-backed store at every prefix",
-     "All sequences of <=6 (quick) / <=7 (thorough) registrations over 7 peers, all 25k edges of the full state graph from canonically built states, two full documents plus an unknown document, and file reopen at every prefix.",
+     "All sequences of <=6 (quick) / <=7 (thorough) registrations over 7 peers, all 25k edges of the full state graph from canonically built states, two full documents plus an unknown document, file reopen at every prefix, and every sequence of <=5 (thorough 6) steps over {register, create, remove} on a document that exists and one that does not (a registration fails exactly while the document does not exist and leaves nothing behind).",
      "Strictly increasing nanosecond clock (hook); equal nanos are outside the statement.")
 prop("C18", "exploration",
      "exhaustive enumeration of small record-table contents x {delete heads table, delete by-key table, both, neither} x 1..3 reopen cycles on real database files, against the specification of the derived tables",
-     "Stores built from every subset of <=3 (quick) / <=4 (thorough) of a 16-entry universe; after deleting derived tables with plain redb and reopening, heads must be the per-author maximum over the records and key-ordered queries must equal the query oracle; without deletion reopening changes nothing observable.",
+     "Stores built from every subset of <=4 (quick) / <=5 (thorough) of a 16-entry universe, offered in universe order and in reverse order; after deleting derived tables with plain redb and reopening, heads must be the per-author maximum over the records and key-ordered queries must equal the query oracle; without deletion reopening changes nothing observable.",
      "Whole-table deletion only (what an older version's database looks like).")
 
 ORDER = ["C%02d" % i for i in range(1, 19)]
